@@ -679,6 +679,8 @@ func RunPullProgram(p *Program) *Result {
 			w.Clock.Advance(s.D)
 			w.Res.Ops++
 			w.Res.logf("advance %s", s.D)
+		case "pullrace":
+			w.RaceStep(s)
 		case "reload":
 			w.Res.Ops++
 			if err := writeFile(w.cfgPath, []byte(s.NewSpec.Render())); err != nil {
@@ -720,6 +722,129 @@ func RunPullProgram(p *Program) *Result {
 // ---- generator ---------------------------------------------------------------
 
 var pullTokenVariants = []string{"ok_route", "ok_route", "ok_route", "ok_last", "other_route", "none", "basic", "empty", "prefix", "suffix", "case", "lower_scheme", "raw", "two_values"}
+
+// RaceStep: the same single-lease ack or nack is sent two or three times at
+// once over HTTP - a consumer that retries while its first attempt is still in
+// flight, or two consumers holding the same (possibly stale) lease id. Every
+// statement of the Pull API handlers and both sides of the store calls are
+// scheduling points; the choice list decides who proceeds. What holds in every
+// interleaving: a lease that is not the message's current, unexpired lease and
+// whose operation has not succeeded on this node within the idempotency window
+// settles nothing and every answer is 409; a current lease is settled once and
+// at least one answer is 204, the others being the idempotent 204 or 409.
+func (w *PullWorld) RaceStep(s Step) {
+	prs := w.pullRoutes()
+	if len(prs) == 0 || len(w.leases) == 0 {
+		return
+	}
+	kind := s.Reason
+	ref := s.Batch
+	if ref < 0 {
+		ref = -ref
+	}
+	id := w.leases[len(w.leases)-1-ref%len(w.leases)]
+	r := prs[0]
+	if x := w.Model.findLease(id); x != nil {
+		for _, c := range prs {
+			if c.Path == x.Route {
+				r = c
+			}
+		}
+	}
+	now := w.Clock.Peek()
+	toks := w.allowlist(r)
+	hdrs := []KV{{"Authorization", "Bearer " + toks[0]}, {"Content-Type", "application/json"}}
+	body := map[string]any{"lease_id": id}
+	op, key := opAck, "ack"
+	if kind == "nack" {
+		body["delay"] = "5s"
+		op, key = opNack, "nack"
+	}
+	b, _ := json.Marshal(body)
+	n := 2
+	if s.Pad {
+		n = 3
+	}
+	w.Res.Ops++
+	var tasks []*Task
+	for i := 0; i < n; i++ {
+		req, _ := NewRequest("POST", r.PullPath+"/"+kind, "pull.internal", "10.9.9.9:5", hdrs, b)
+		tasks = append(tasks, w.Start("pullrace", w.Pull, req))
+	}
+	methods := []string{"Ack", "Nack", "MarkDead"}
+	for _, m := range methods {
+		w.armedStore[m], w.armedStore[m+".after"] = true, true
+	}
+	w.Sched.SetArmed(func(l string) bool { return strings.HasPrefix(l, "pullapi.Server.") || strings.HasPrefix(l, "store.") })
+	w.Sched.DetectBlocked = true
+	k := w.Sched.InterleaveBlocking(tasks, s.Sched)
+	w.Sched.SetArmed(nil)
+	w.Sched.DetectBlocked = false
+	for _, m := range methods {
+		delete(w.armedStore, m)
+		delete(w.armedStore, m+".after")
+	}
+	if k != "done" {
+		if k == "deadlock" {
+			w.add("pullrace.deadlock", "C04,C05", "pull/race", "concurrent %s requests for one lease are stuck waiting for one another", kind)
+			return
+		}
+		w.Res.Trouble = "pullrace: " + k + " " + w.Sched.Trouble
+		return
+	}
+	var sts []string
+	n204, n409, other := 0, 0, 0
+	for _, t := range tasks {
+		resp := w.finish(t, "done")
+		sts = append(sts, fmt.Sprint(resp.Status))
+		switch resp.Status {
+		case 204:
+			n204++
+		case 409:
+			n409++
+		default:
+			other++
+		}
+	}
+	if w.Sched.Switches > 1 {
+		w.Res.probe("pullrace.interleaved")
+	}
+	idem := false
+	if t, ok := w.recent[id+"/"+key]; ok && now.Sub(t) < 2*time.Minute {
+		idem = true
+	}
+	cls := "idempotent"
+	if !idem {
+		cls = w.Model.applyLease(now, op, id, 5*time.Second, "")
+	}
+	w.Res.logf("pull race: %d x %s of one lease (%s) -> %s", n, kind, cls, strings.Join(sts, " "))
+	loc := "pull/race/" + kind
+	switch {
+	case other > 0:
+		w.add("C04.pull.status", "C04", loc, "concurrent %s of one lease answered %s", kind, strings.Join(sts, " "))
+	case idem:
+		w.Res.probe("pullrace.idempotent")
+		if n409 > 0 {
+			w.add("C04.pull.status", "C04", loc, "%s of a lease whose %s succeeded on this node within the idempotency window answered %s, contract says 204 for each", kind, key, strings.Join(sts, " "))
+		}
+	case cls == "ok":
+		w.Res.probe("pullrace.current_lease")
+		w.recent[id+"/"+key] = now
+		if n204 == 0 {
+			w.add("C04.pull.status", "C04", loc, "concurrent %s of a current, unexpired lease answered %s: nobody was told it succeeded", kind, strings.Join(sts, " "))
+		}
+	default:
+		// stale (expired, superseded, voided, unknown): nothing succeeded, nothing may be reported as success
+		w.Res.probe("pullrace.stale_lease")
+		if n204 > 0 {
+			w.add("C04.pull.stale_success", "C04", loc, "concurrent %s of a lease that is %s (nothing succeeded, now or earlier) answered %s: a stale call was told it succeeded", kind, cls, strings.Join(sts, " "))
+		}
+	}
+	items, err := w.Listing()
+	if err == nil {
+		w.addAll(w.Model.CompareListing(now, "pull race", items), loc)
+	}
+}
 
 // openPullRoute names a pull route that has neither tokens of its own nor a
 // global pull_api allowlist to fall back on ("" if there is none).
@@ -852,6 +977,39 @@ func GenPullProgram(t *rapid.T, authHeavy bool) *Program {
 			op.Dead = op.Kind == "nack" && rapid.IntRange(0, 3).Draw(t, "dead") == 0
 			sys.Ops = append(sys.Ops, op)
 			p.Steps = append(p.Steps, Step{Op: "pull", Batch: len(sys.Ops) - 1})
+		case k == 16 && rapid.IntRange(0, 1).Draw(t, "race?") == 0:
+			// two or three copies of one ack / nack in flight at once, of a recent or an older (stale) lease
+			st := Step{Op: "pullrace", Reason: rapid.SampledFrom([]string{"ack", "ack", "nack"}).Draw(t, "pr.kind"), Batch: rapid.SampledFrom([]int{0, 0, 1, 2, 3}).Draw(t, "pr.ref"), Pad: rapid.IntRange(0, 3).Draw(t, "pr.three") == 3}
+			type seg struct{ who, n int }
+			segs := rapid.SliceOfN(rapid.Custom(func(t *rapid.T) seg {
+				return seg{rapid.IntRange(0, 2).Draw(t, "who"), rapid.SampledFrom([]int{1, 2, 3, 5, 8, 13, 21, 34}).Draw(t, "len")}
+			}), 0, 8).Draw(t, "pr.sched")
+			for _, sg := range segs {
+				for i := 0; i < sg.n && len(st.Sched) < 200; i++ {
+					st.Sched = append(st.Sched, sg.who)
+				}
+			}
+			p.Steps = append(p.Steps, st)
+		case k == 17 && rapid.IntRange(0, 1).Draw(t, "heartbeat?") == 0:
+			// a consumer that keeps its lease alive: dequeue, then extend again and
+			// again before the current deadline; another consumer polls just before
+			// the deadline all the extensions add up to; the holder acks at the end
+			ri := rapid.IntRange(0, 2).Draw(t, "hb.route")
+			ttl := rapid.SampledFrom([]time.Duration{10 * time.Second, 30 * time.Second, time.Minute}).Draw(t, "hb.ttl")
+			tr := rapid.SampledFrom([]string{"http", "http", "worker"}).Draw(t, "hb.transport")
+			add := func(op PullOp) {
+				sys.Ops = append(sys.Ops, op)
+				p.Steps = append(p.Steps, Step{Op: "pull", Batch: len(sys.Ops) - 1})
+			}
+			p.Steps = append(p.Steps, Step{Op: "enq", Batch: ri, Env: &EnvSpec{Payload: []byte("hb")}})
+			add(PullOp{Kind: "dequeue", Route: ri, Token: "ok_route", Transport: tr, Batch: 1, TTL: ttl})
+			for i := rapid.IntRange(2, 3).Draw(t, "hb.beats"); i > 0; i-- {
+				p.Steps = append(p.Steps, Step{Op: "advance", D: ttl * 2 / 3})
+				add(PullOp{Kind: "extend", Route: ri, Token: "ok_route", Transport: tr, LeaseRefs: []int{0}, Delay: ttl * 2 / 3})
+			}
+			p.Steps = append(p.Steps, Step{Op: "advance", D: ttl*2/3 - time.Second})
+			add(PullOp{Kind: "dequeue", Route: ri, Token: "ok_route", Transport: "http", Batch: 1, TTL: ttl})
+			add(PullOp{Kind: "ack", Route: ri, Token: "ok_route", Transport: tr, LeaseRefs: []int{rapid.IntRange(0, 1).Draw(t, "hb.ackref")}})
 		case k < 19:
 			p.Steps = append(p.Steps, Step{Op: "advance", D: rapid.SampledFrom([]time.Duration{time.Millisecond, time.Second, 5 * time.Second, 10 * time.Second, 30 * time.Second, time.Minute, 119 * time.Second, 121 * time.Second, 10 * time.Minute}).Draw(t, "d")})
 		default:
